@@ -185,6 +185,27 @@ def run(ctx: Any, prog: Program) -> None:
                 ent_guards.append(guard)
     ctx.check('C15.F1', ent_uncond == fixed and sorted(ent_guards) == inc_guards, vtf, rc[0], f'res_count adds {fixed} fixed entries and one under {inc_guards}; save() writes {ent_uncond} unconditional entries and one under {sorted(ent_guards)}',
               func='VTF.save', text='resource count = entries written')
+    # an offset recorded with file.tell() is the position of the item's first byte: whatever is written next is what the reader finds there.
+    # Filler (alignment padding: bytes(n), b'\\0' * n) written *after* the offset was recorded shifts the item away from its recorded position.
+    def is_filler(e: ast.AST) -> bool:
+        if isinstance(e, ast.Call) and dotted(e.func) in ('bytes', 'bytearray') and len(e.args) == 1 and not isinstance(e.args[0], (ast.Constant, ast.List, ast.Tuple)) \
+                and not (isinstance(e.args[0], ast.Call) and dotted(e.args[0].func) in ('len',)):
+            return any(isinstance(x, ast.Call) and isinstance(x.func, ast.Attribute) and x.func.attr == 'tell' for x in ast.walk(e)) or any(isinstance(x, ast.BinOp) and isinstance(x.op, ast.Mod) for x in ast.walk(e))
+        if isinstance(e, ast.BinOp) and isinstance(e.op, ast.Mult) and any(isinstance(x, ast.Constant) and isinstance(x.value, bytes) and set(x.value) <= {0} and x.value for x in (e.left, e.right)):
+            return True
+        return False
+    n_off = 0
+    for st_list in [getattr(n, f) for n in ast.walk(sv) for f in ('body', 'orelse') if isinstance(getattr(n, f, None), list)]:
+        for i_, st in enumerate(st_list):
+            if isinstance(st, ast.Expr) and isinstance(st.value, ast.Call) and isinstance(st.value.func, ast.Attribute) and st.value.func.attr == 'set_data' \
+                    and any(isinstance(a, ast.Call) and isinstance(a.func, ast.Attribute) and a.func.attr == 'tell' for a in st.value.args):
+                n_off += 1
+                nxt = st_list[i_ + 1] if i_ + 1 < len(st_list) else None
+                filler = isinstance(nxt, ast.Expr) and isinstance(nxt.value, ast.Call) and isinstance(nxt.value.func, ast.Attribute) and nxt.value.func.attr == 'write' and nxt.value.args and is_filler(nxt.value.args[0])
+                ctx.check('C15.F1', not filler, vtf, nxt if filler else st, f'save() records `{U(st.value.args[0])[:30]}` at file.tell() and then writes filler (`{U(nxt.value.args[0])[:40] if filler else ""}`) before the item itself: '
+                          'the resource table points at the padding, the reader takes the length prefix from the wrong bytes', func='VTF.save', text=f'offset of {U(st.value.args[0])[:30]} is where the item starts')
+    if n_off < 4:
+        raise AnalysisError(f'VTF.save: only {n_off} recorded offsets found (header size, resource blocks, particle sheet, low/high res confirmed by hand)')
     # ---- F2 --------------------------------------------------------------------------------------------------
     def nest(fn: ast.AST, obj: str) -> Tuple[List[str], str, ast.AST]:
         for n in walk_no_nested(fn):
@@ -529,8 +550,83 @@ def run(ctx: Any, prog: Program) -> None:
         from engine.srcmatch import match_all
         ctx.check('C15.F5', match_all(mt_[0], terms) and mt_[1] == 4, py, sd, f'bilinear scale_down sums {mt_[0]} and divides by {mt_[1]}: it must average the four parent samples (0, horiz, vert, both)', func='scale_down',
                   text='bilinear = mean of four (Python)')
-    ok = 'horiz_off, per_column = (4, 2)' in ssrc and 'vert_off, per_row = (4 * per_column * width, 2 * per_column * width)' in ssrc and 'off2 = 4 * (per_row * y + per_column * x)' in ssrc
-    ctx.shape('C15.F5', ok, py, sd, 'parent pixel addressing: two source pixels per destination pixel in each halved dimension', func='scale_down', text='parent addressing (Python)')
+    # parent addressing, decided symbolically: for each of the four size relations (either dimension equal or halved) the straight-line code
+    # in front of the filter dispatch is evaluated over polynomials in w, h, x, y, c; the four sample indexes of the bilinear mean must be
+    # exactly the byte offsets of the parents (rx*x + dx, ry*y + dy), dx in {0, rx-1}, dy in {0, ry-1}, in a source image rx*w pixels wide
+    from engine.poly import Poly as _P
+
+    class _Undecided(Exception):
+        pass
+    sd_params = [a.arg for a in sd.args.args]
+
+    def peval(e: ast.AST, env: Dict[str, Any]) -> Any:
+        if isinstance(e, ast.Constant) and isinstance(e.value, int) and not isinstance(e.value, bool):
+            return _P.const(e.value)
+        if isinstance(e, ast.Name) and e.id in env:
+            return env[e.id]
+        if isinstance(e, ast.Tuple):
+            return tuple(peval(x, env) for x in e.elts)
+        if isinstance(e, ast.BinOp) and isinstance(e.op, (ast.Add, ast.Sub, ast.Mult)):
+            a_, b_ = peval(e.left, env), peval(e.right, env)
+            if isinstance(a_, _P) and isinstance(b_, _P):
+                return a_ + b_ if isinstance(e.op, ast.Add) else (a_ - b_ if isinstance(e.op, ast.Sub) else a_ * b_)
+        raise _Undecided(ast.unparse(e)[:60])
+
+    def prun(stmts: List[ast.stmt], env: Dict[str, Any]) -> None:
+        for st in stmts:
+            if isinstance(st, ast.Expr) and isinstance(st.value, ast.Constant):
+                continue
+            if isinstance(st, ast.Assign) and len(st.targets) == 1:
+                v = peval(st.value, env)
+                t = st.targets[0]
+                if isinstance(t, ast.Name):
+                    env[t.id] = v
+                elif isinstance(t, ast.Tuple) and isinstance(v, tuple) and len(v) == len(t.elts) and all(isinstance(x, ast.Name) for x in t.elts):
+                    for x, vv in zip(t.elts, v):
+                        env[x.id] = vv
+                else:
+                    raise _Undecided(ast.unparse(st)[:60])
+            elif isinstance(st, ast.If) and isinstance(st.test, ast.Compare) and len(st.test.ops) == 1 and isinstance(st.test.ops[0], (ast.Eq, ast.NotEq)):
+                l_, r_ = peval(st.test.left, env), peval(st.test.comparators[0], env)
+                same = repr(l_) == repr(r_)
+                prun(st.body if same == isinstance(st.test.ops[0], ast.Eq) else st.orelse, env)
+            else:
+                raise _Undecided(ast.unparse(st)[:60])
+    dispatch_at = next((i for i, st in enumerate(sd.body) if isinstance(st, ast.If) and 'value' in ast.unparse(st.test)), None)
+    bil_terms = mean_terms(sd)
+    addr_ok = dispatch_at is not None and bil_terms is not None and len(sd_params) >= 5
+    ctx.shape('C15.F5', addr_ok, py, sd, 'scale_down: size set-up followed by the filter dispatch; bilinear arm sums src[...] samples', func='scale_down', text='parent addressing (Python)')
+    if addr_ok:
+        _, p_sw, p_sh, p_w, p_h = sd_params[:5]
+        # the innermost loop body holding the mean: assignments in front of it (off, off2) are evaluated, loop variables are symbols
+        mean_node = next(n for n in ast.walk(sd) if isinstance(n, ast.BinOp) and isinstance(n.op, (ast.FloorDiv, ast.RShift)) and any(isinstance(x, ast.Subscript) for x in ast.walk(n.left)))
+        chain: List[ast.AST] = []
+        cur_: Optional[ast.AST] = py.parents.get(mean_node)
+        while cur_ is not None and cur_ is not sd:
+            if isinstance(cur_, ast.For):
+                chain.insert(0, cur_)
+            cur_ = py.parents.get(cur_)
+        loop_syms = [l.target.id for l in chain if isinstance(l.target, ast.Name)]
+        ctx.shape('C15.F5', len(loop_syms) == 3, py, sd, f'bilinear arm: loops over row, column and channel (found {loop_syms})', func='scale_down', text='parent addressing loops')
+        if len(loop_syms) == 3:
+            vy, vx, vc = loop_syms
+            for rx, ry in ((1, 1), (2, 1), (1, 2), (2, 2)):
+                w_, h_ = _P.sym('w'), _P.sym('h')
+                env5: Dict[str, Any] = {p_w: w_, p_h: h_, p_sw: w_ * _P.const(rx), p_sh: h_ * _P.const(ry), vy: _P.sym('y'), vx: _P.sym('x'), vc: _P.sym('c')}
+                label = f'{"half" if rx == 2 else "same"} width, {"half" if ry == 2 else "same"} height'
+                try:
+                    prun(sd.body[:dispatch_at], env5)
+                    for l in chain:
+                        prun([st for st in l.body if isinstance(st, ast.Assign) and not any(isinstance(x, ast.Subscript) for x in ast.walk(st))], env5)
+                    got = sorted(repr(peval(ast.parse(str(t), mode='eval').body.slice, env5)) for t in bil_terms[0])
+                except _Undecided as exc:
+                    ctx.shape('C15.F5', False, py, sd, f'scale_down addressing not evaluable symbolically ({exc})', func='scale_down', text=f'parent addressing (Python) {label}')
+                    continue
+                sw_ = w_ * _P.const(rx)
+                want = sorted(repr(_P.const(4) * ((_P.const(ry) * _P.sym('y') + _P.const(dy)) * sw_ + _P.const(rx) * _P.sym('x') + _P.const(dx)) + _P.sym('c'))
+                              for dx in (0, rx - 1) for dy in (0, ry - 1))
+                ctx.check('C15.F5', got == want, py, sd, f'scale_down ({label}): the bilinear mean reads the source at byte offsets {got}; the four parents of destination pixel (x, y) are at {want} '
+                          '(source rows are src_width pixels long) - a non-square texture gets mipmaps that are not the average of their parents', func='scale_down', text=f'parent addressing (Python) {label}')
     ctxt = re.sub(r'<\w+>', '', ' '.join(l.text for l in px.func('scale_down').body)).replace(' ', '')
     ok = all(t.replace(' ', '') in ctxt for t in terms) and ')//4)' in ctxt
     ctx.shape('C15.F5', ok, py, sd, 'Cython scale_down must average the same four samples', func='scale_down', text='bilinear = mean of four (Cython)', file=px.relpath)
@@ -695,6 +791,10 @@ def accepted_region(test: ast.AST, coords: Tuple[str, str] = ('x', 'y')) -> Dict
 
 
 MUTANTS: List[Dict[str, Any]] = [
+    {'id': 'resource_block_padded_after_offset', 'file': 'vtf.py', 'find': "                    deferred.set_data(('res', res_id), file.tell())\n", 'replace': "                    deferred.set_data(('res', res_id), file.tell())\n                    file.write(bytes(-file.tell() % 4))\n", 'expect': 'C15.F1'},
+    {'id': 'ok_resource_block_padded_before_offset', 'file': 'vtf.py', 'find': "                    deferred.set_data(('res', res_id), file.tell())\n", 'replace': "                    file.write(bytes(-file.tell() % 4))\n                    deferred.set_data(('res', res_id), file.tell())\n", 'expect': None, 'refuse_ok': True},
+    {'id': 'scale_down_row_stride_from_height', 'file': '_py_vtf_readwrite.py', 'find': "        vert_off, per_row = 4 * per_column * width, 2 * per_column * width\n", 'replace': "        vert_off, per_row = 4 * src_height, 2 * src_width\n", 'expect': 'C15.F5'},
+    {'id': 'ok_scale_down_strides_from_source_width', 'file': '_py_vtf_readwrite.py', 'find': "        vert_off, per_row = 4 * per_column * width, 2 * per_column * width\n", 'replace': "        vert_off, per_row = 4 * src_width, 2 * src_width\n", 'expect': None},
     {'id': 'custom_resource_id_stripped', 'file': 'vtf.py', 'find': "                        pass  # Custom.", 'replace': "                        res_id = res_id.rstrip(b'\\0')", 'expect': 'C15.F1'},
     {'id': 'mipmaps_rebuilt_in_table_order', 'file': 'vtf.py', 'find': "                for mipmap in range(1, self.mipmap_count):\n                    frm = self._frames[frame_num, depth_side, mipmap]\n                    if frm._data is None:", 'replace': "                for (f2, d2, mipmap), frm in self._frames.items():\n                    if f2 != frame_num or d2 != depth_side or mipmap == 0:\n                        continue\n                    if frm._data is None:", 'expect': 'C15.F5'},
     # repaired variants: the known findings must disappear (shows the rule describes the defect, not the code's style)
